@@ -106,6 +106,17 @@ func verifHarness_C08_senders() {
 	e.emitBatch(src, 0)
 	verifQuiesce()
 
+	var intraSrc *history.ClusterShardID
+	// intra=1: a second active receiver, of the kind that relays a peer proxy's source shard, holding
+	// a watermark: it replays that watermark to newly registered target shards as well
+	if verifParam("intra", 0) == 1 {
+		ir := &intraProxyStreamReceiver{logger: e.logger, shardManager: e.sm, peerNodeName: "peer",
+			targetShardID: shard, sourceShardID: history.ClusterShardID{ClusterID: src.shard.ClusterID, ShardID: 9},
+			lastWatermark: &replicationv1.WorkflowReplicationMessages{ExclusiveHighWatermark: 7}}
+		e.sm.RegisterActiveReceiver(ir.sourceShardID, ir)
+		intraSrc = &ir.sourceShardID
+		verifReach("intra-proxy-receiver-active")
+	}
 	var streams []*rtTarget
 	var senders []*proxyStreamSender
 	for k := 0; k < nInc; k++ {
@@ -160,6 +171,9 @@ func verifHarness_C08_senders() {
 		verifQuiesce()
 		verifReach("incarnations-overlapped")
 		c08CheckSenderRegistered(e, senders[k], "successor")
+		// watermark replay: the receiver has seen a watermark, so the newest live stream of the shard
+		// has been handed it (otherwise an idle source's stream stays silent)
+		verifAssert(streams[k].msgs > 0, "successor:newest-live-sender-received-the-watermark-replay")
 	}
 	// everything ends
 	close(streams[nInc-1].broken)
@@ -168,6 +182,9 @@ func verifHarness_C08_senders() {
 	verifQuiesce()
 	verifQuiesce()
 	_ = rcv
+	if intraSrc != nil {
+		e.sm.UnregisterActiveReceiver(*intraSrc) // the peer's stream ends too
+	}
 	c08CheckEmpty(e, "end")
 }
 
@@ -246,4 +263,62 @@ func verifHarness_C08_receiversGated() {
 	verifQuiesce()
 	verifQuiesce()
 	c08CheckEmpty(e, "end")
+}
+
+// verifHarness_C08_closedWindow: the state inside a dying incarnation's teardown window, built
+// directly: its delivery (or acknowledgement) channel is already closed but still registered. Every
+// send site that can hit that window must survive it and report the hand-off as NOT delivered (so the
+// caller retries with the next incarnation instead of counting a dropped batch as handed off).
+func verifHarness_C08_closedWindow() {
+	verifConfig("preempt", 0)
+	e := rtNewEnv(1, 1)
+	sm := c08Impl(e)
+	target := history.ClusterShardID{ClusterID: rtTargetCluster, ShardID: 1}
+	source := history.ClusterShardID{ClusterID: 1, ShardID: 1}
+	wm := &replicationv1.WorkflowReplicationMessages{ExclusiveHighWatermark: 7}
+	switch verifChoose("send-site", 5) {
+	case 0:
+		verifAction("deliver-message-to-closed-channel")
+		ch := make(chan RoutedMessage, 4)
+		sm.SetRemoteSendChan(target, ch)
+		close(ch)
+		msg := &RoutedMessage{SourceShard: source, Resp: &adminservice.StreamWorkflowReplicationMessagesResponse{
+			Attributes: &adminservice.StreamWorkflowReplicationMessagesResponse_Messages{Messages: wm}}}
+		ok := sm.DeliverMessagesToShardOwner(target, msg, channelNewShutdownOnce(), e.logger)
+		verifAssert(!ok, "closed-window:message-hand-off-to-a-closed-channel-is-reported-undelivered")
+	case 1:
+		verifAction("deliver-ack-to-closed-channel")
+		ch := make(chan RoutedAck, 4)
+		sm.SetLocalAckChan(source, ch)
+		close(ch)
+		ack := &RoutedAck{TargetShard: target, Req: &adminservice.StreamWorkflowReplicationMessagesRequest{
+			Attributes: &adminservice.StreamWorkflowReplicationMessagesRequest_SyncReplicationState{
+				SyncReplicationState: &replicationv1.SyncReplicationState{InclusiveLowWatermark: 3}}}}
+		ok := sm.DeliverAckToShardOwner(source, ack, channelNewShutdownOnce(), e.logger, 3, false)
+		verifAssert(!ok, "closed-window:ack-hand-off-to-a-closed-channel-is-reported-undelivered")
+	case 2:
+		verifAction("routing-receiver-replay-to-closed-channel")
+		ch := make(chan RoutedMessage, 4)
+		sm.SetRemoteSendChan(target, ch)
+		close(ch)
+		r := &proxyStreamReceiver{logger: e.logger, shardManager: e.sm, sourceShardID: source, lastWatermark: wm}
+		r.NotifyNewTargetShard(target)
+	case 3:
+		verifAction("intra-proxy-receiver-replay-to-closed-channel")
+		ch := make(chan RoutedMessage, 4)
+		sm.SetRemoteSendChan(target, ch)
+		close(ch)
+		r := &intraProxyStreamReceiver{logger: e.logger, shardManager: e.sm, peerNodeName: "peer",
+			targetShardID: target, sourceShardID: history.ClusterShardID{ClusterID: 1, ShardID: 9}, lastWatermark: wm}
+		r.NotifyNewTargetShard(target)
+	case 4:
+		verifAction("ack-forwarded-by-a-sender-to-a-closed-channel")
+		ch := make(chan RoutedAck, 4)
+		sm.SetLocalAckChan(source, ch)
+		close(ch)
+		ack := &RoutedAck{TargetShard: target, Req: &adminservice.StreamWorkflowReplicationMessagesRequest{}}
+		ok := sm.DeliverAckToShardOwner(source, ack, channelNewShutdownOnce(), e.logger, 3, true)
+		verifAssert(!ok, "closed-window:ack-hand-off-to-a-closed-channel-is-reported-undelivered")
+	}
+	verifReach("closed-window-survived")
 }
